@@ -74,11 +74,17 @@ theorem run_step {f : Nat} (ih : Specs ts f) (rbp : Nat) (p : P) (hc : Cur ts p)
   simp only [hn]
   have hf := (hi.fresh n hn).addMeta post
   split
-  · obtain ⟨t, ht⟩ := hf.tok
+  · next hnone =>
+    obtain ⟨t, ht⟩ := hf.tok
     have hmem : t ∈ ts := hi.nodeIn n hn t (by simpa using ht)
+    have hnc := hf.not_comment ht
+    have hkt : kindTok "Term cannot start an expression" t := by
+      have h0 := hf.nud_none_tok ht hnone
+      simp only [kindTok]
+      exact ⟨by simp, by simp, fun _ => h0, by simp⟩
     spr (tokOf_spec _ ht)
     rintro _ _ ⟨rfl, rfl⟩
-    exact Sat.throw ⟨by simp [errAt], fun _ => by simp [errAt], EPos.at hmem (by simp [sixKinds])⟩
+    exact Sat.throw ⟨by simp [errAt], fun _ => by simp [errAt], EPos.at hmem hnc (by simp [sixKinds]) hkt⟩
   · next hnud =>
     sih (ih.nudOf _ _ hc1 hf hnud)
     intro left p2 ⟨hc2, hl2, hr2⟩
@@ -93,17 +99,24 @@ theorem loopLed_step {f : Nat} (ih : Specs ts f) (rbp : Nat) (left : Node) (p : 
   spr (cur_spec hc)
   rintro nx _ ⟨rfl, hnx, hfx, hinx⟩
   split
-  · split
-    · obtain ⟨lt, hlt⟩ := hl.1
+  · next hbind =>
+    split
+    · next hlednone =>
+      obtain ⟨lt, hlt⟩ := hl.1
       spr (tokOf_spec _ hlt)
       rintro _ _ ⟨rfl, rfl⟩
       obtain ⟨nt, hnt⟩ := hfx.tok
       have hmem : nt ∈ ts := hinx nt hnt
+      have hnc := hfx.not_comment hnt
+      have hkt : kindTok "Term can only start an expression" nt := by
+        obtain ⟨nm, b, x, h1, h2⟩ := hfx.led_none_tok hnt hlednone (by omega)
+        simp only [kindTok]
+        refine ⟨by simp, by simp, by simp, fun _ => ⟨nm, b, x, h1, h2⟩⟩
       spr (tokOf_spec _ hnt)
       rintro _ _ ⟨rfl, rfl⟩
       split
       · exact Sat.pure ⟨hc, Nat.le_refl _, hl⟩
-      · exact Sat.throw ⟨by simp [errAt], fun _ => by simp [errAt], EPos.at hmem (by simp [sixKinds])⟩
+      · exact Sat.throw ⟨by simp [errAt], fun _ => by simp [errAt], EPos.at hmem hnc (by simp [sixKinds]) hkt⟩
     · next hled =>
       spr (advance_spec _ (Cur.toks (by assumption)))
       intro post p1 ⟨hc1, hl1⟩
@@ -587,10 +600,11 @@ theorem parseBody_spec (fuel : Nat) (toks : List Tok) :
     simp only [hnx]
     obtain ⟨t, ht⟩ := (hi.fresh nx hnx).tok
     have hmem : t ∈ toks := hi.nodeIn nx hnx t ht
+    have hnc := (hi.fresh nx hnx).not_comment ht
     apply Sat.bind (tokOf_spec _ ht) (fun _ he => ⟨he.1, fun _ => he.2.1, he.2.2⟩)
     rintro _ _ ⟨rfl, rfl⟩
     split
-    · exact Sat.throw ⟨by simp [errAt], fun _ => by simp [errAt], EPos.at hmem (by simp [sixKinds])⟩
+    · exact Sat.throw ⟨by simp [errAt], fun _ => by simp [errAt], EPos.at hmem hnc (by simp [sixKinds]) (by simp [kindTok])⟩
     · exact Sat.pure hn3
   · obtain ⟨nt, hnt⟩ := hr2.1
     apply Sat.bind (hasMoreStatements_spec hnt hc2) (fun _ he => ⟨he.1, fun _ => he.2.1, he.2.2⟩)
